@@ -2,6 +2,8 @@ import Bw.Props.C10
 #print axioms Bw.Props.C10.key_range_later_line
 #print axioms Bw.Props.C10.key_range_first_line
 #print axioms Bw.Props.C10.trimmed_key_range
+#print axioms Bw.Props.C10.trimmed_key_cut
+#print axioms Bw.Props.C10.line_pattern_key_cut
 #print axioms Bw.Props.C10.regex_key_range
 #print axioms Bw.Props.C10.tag_range
 #print axioms Bw.Props.C10.tag_positions
